@@ -215,3 +215,147 @@ Proof.
   eexists. eexists. split; vm_compute; reflexivity.
 Qed.
 Print Assumptions c01_composed_inhabited.
+
+(* ---- the closure clause, in full ----
+   "When no product is requested in two different versions along the traversal, nothing of the closure is set
+   up beforehand, and the request succeeds, the set of products set up is exactly the dependency closure
+   (required dependencies, plus optional ones that resolve), each at the version the VRO designates."
+
+   [conflict_free ... top li D] (Proofs/SetupFullClosure.v): ONE assignment D of a version (or of nothing) to
+   every product name explains every request of the traversal - the top-level request designates D top, and in
+   the table of every reachable product at its assigned version every dependency line (none with -j) designates,
+   for the product it names, what D assigns to it.  [designates] is C03's designation rule.
+   [sets_up fw D n]: n is assigned a declared version in whose table every REQUIRED line names a product that sets
+   up.  [reach_ok fw D top k]: k is reached from top through lines, required or optional, that name products
+   which set up, always in the table of the assigned version - the dependency closure.
+   [reachN fw top n]: n is reachable through the lines of any declared version (the frame of C04).
+
+   Conclusion, for a request from a fresh Eups (dictionary empty) that succeeds:
+     (1) every member of the closure is recorded, at its assigned (= designated) version;
+     (2) every recorded product among the reachable names is a member of the closure (at its assigned version);
+     (3) the record of every other product the world knows is what it was.
+   Hypotheses besides WF2 and conflict-freedom: nothing reachable is recorded beforehand; no --max-depth, no
+   --just, no keep in the VRO; the database view is well formed and the comparator is a total order on the
+   declared version names (both as in C03's walk_is_designation). *)
+From Eupsv Require Import Proofs.SetupFullClosure.
+From Eupsv Require Proofs.Resolve.
+
+Theorem closure_exact vcmp vmatch fw cfg rc flavors dl rank vro top li D fuel st st' al' tr :
+  WF2 (fw_products fw) dl rank -> c_max_depth cfg = None ->
+  wf_db (db_of cfg fw) = true -> (forall n, total_order_on vcmp (names_of (db_of cfg fw) n)) ->
+  mem_entry EKeep vro = false ->
+  conflict_free vcmp vmatch fw cfg rc flavors vro top li D ->
+  nodollar_paths (fw_products fw) (s_env st) ->
+  (forall n, reachN fw top n -> find_setup_product (fw_products fw) (s_env st) n = None) ->
+  setup_full vcmp vmatch fw cfg rc flavors fuel st [] vro top li true 0 false = FDone true st' al' tr ->
+  (forall k, reach_ok fw D top k ->
+     exists v q, D k = Some v /\ find_pv (fw_products fw) k v = Some q /\
+                 find_setup_product (fw_products fw) (s_env st') k = Some q) /\
+  (forall k q, reachN fw top k -> find_setup_product (fw_products fw) (s_env st') k = Some q ->
+     reach_ok fw D top k /\ D k = Some (p_version q)) /\
+  (forall k, known (fw_products fw) k -> ~ reachN fw top k ->
+     find_setup_product (fw_products fw) (s_env st') k = find_setup_product (fw_products fw) (s_env st) k).
+Proof.
+  intros H Hd Hw Ht Hk [C0 CL] Hnd Hfresh E.
+  exact (closure_lemma vcmp vmatch fw cfg rc flavors dl rank vro top D H Hd Hw Ht Hk CL fuel st li st' al' tr Hnd Hfresh C0 E).
+Qed.
+Print Assumptions closure_exact.
+
+(* the assigned version IS the designated one: for the requested product by conflict_free itself, for every
+   other member of the closure through the line that reached it *)
+Theorem closure_versions_are_designated vcmp vmatch fw cfg rc flavors vro top li D :
+  conflict_free vcmp vmatch fw cfg rc flavors vro top li D ->
+  option_map fd_version (designates vcmp vmatch rc (db_of cfg fw) flavors 0 vro
+                                    (mkRequest top (li_version li) (li_expr li))) = D top /\
+  forall n v p i o x j, reachN fw top n -> D n = Some v -> find_pv (fw_products fw) n v = Some p ->
+    nth_error (p_actions p) i = Some (ASetup o x j) ->
+    j = false /\
+    option_map fd_version (designates vcmp vmatch rc (db_of cfg fw) flavors 1 vro
+       (mkRequest x (li_version (nth i (lines_of fw p) no_info)) (li_expr (nth i (lines_of fw p) no_info)))) = D x.
+Proof.
+  intros [C0 CL]. split; [exact C0|]. intros n v p i o x j Rn Dn F.
+  pose proof (CL n v p Rn Dn F) as L. revert L. generalize (lines_of fw p). generalize (p_actions p).
+  induction i as [|i IH]; intros acts infos L Hn; destruct acts as [|a acts]; try discriminate.
+  - cbn [nth_error] in Hn. injection Hn as ->. destruct L as [[-> L0] _]. split; [reflexivity|].
+    destruct infos; exact L0.
+  - cbn [nth_error] in Hn. destruct L as [_ L']. destruct (IH acts (tl infos) L' Hn) as [A B]. split; [assumption|].
+    destruct infos as [|i0 infos]; [|exact B]. destruct i; exact B.
+Qed.
+Print Assumptions closure_versions_are_designated.
+
+(* for a whole command *)
+Corollary closure_exact_request vcmp vmatch fw cfg rc flavors dl rank vro top version D fuel st st' tr :
+  WF2 (fw_products fw) dl rank -> c_max_depth cfg = None ->
+  wf_db (db_of cfg fw) = true -> (forall n, total_order_on vcmp (names_of (db_of cfg fw) n)) ->
+  select_vro rc (request_opts cfg version) = Ok vro -> mem_entry EKeep vro = false ->
+  conflict_free vcmp vmatch fw cfg rc flavors vro top {| li_version := version; li_expr := None |} D ->
+  nodollar_paths (fw_products fw) (s_env st) ->
+  (forall n, reachN fw top n -> find_setup_product (fw_products fw) (s_env st) n = None) ->
+  request_full vcmp vmatch fw cfg rc flavors fuel st top version true false = Ok (Some st', tr) ->
+  (forall k, reach_ok fw D top k ->
+     exists v q, D k = Some v /\ find_pv (fw_products fw) k v = Some q /\
+                 find_setup_product (fw_products fw) (s_env st') k = Some q) /\
+  (forall k q, reachN fw top k -> find_setup_product (fw_products fw) (s_env st') k = Some q ->
+     reach_ok fw D top k /\ D k = Some (p_version q)).
+Proof.
+  intros H Hd Hw Ht V Hk CF Hnd Hfresh E. unfold request_full in E. rewrite V in E.
+  destruct (setup_full vcmp vmatch fw cfg rc flavors fuel st [] vro top _ true 0 false)
+    as [[|] st1 al1 tr1|st1 al1 tr1|tr1|tr1] eqn:X; try discriminate.
+  injection E as <- _.
+  destruct (closure_exact vcmp vmatch fw cfg rc flavors dl rank vro top _ D fuel st st1 al1 tr1 H Hd Hw Ht Hk CF Hnd Hfresh X)
+    as [A [B _]].
+  split; assumption.
+Qed.
+Print Assumptions closure_exact_request.
+
+(* ---- inhabited: setup libb on ex_fw from the empty environment; the assignment is libb 1.0, base 2.0; the closure
+   is {libb, base} and both are recorded at these versions ---- *)
+Example closure_exact_inhabited :
+  WF2 (fw_products ex_fw) (dl_of ex_world) (rank_of ex_order) /\ c_max_depth ex_cfg = None /\
+  wf_db (db_of ex_cfg ex_fw) = true /\ (forall n, total_order_on vcmp_simple (names_of (db_of ex_cfg ex_fw) n)) /\
+  mem_entry EKeep ex_vro = false /\
+  conflict_free vcmp_simple vmatch_simple ex_fw ex_cfg default_config ex_flavors ex_vro (lit "libb") no_info ex_D /\
+  reach_ok ex_fw ex_D (lit "libb") (lit "base") /\
+  exists st' al' tr,
+    setup_full_simple ex_fw ex_cfg default_config ex_flavors 20 ex_st0 [] ex_vro (lit "libb") no_info true 0 false
+      = FDone true st' al' tr /\
+    find_setup_product ex_world (s_env st') (lit "base") = find_pv ex_world (lit "base") (lit "2.0").
+Proof.
+  split; [apply wf2_check_sound; vm_compute; reflexivity|]. split; [reflexivity|]. split; [vm_compute; reflexivity|].
+  split; [apply total_order_all; apply Proofs.Resolve.total_orderb_sound; vm_compute; reflexivity|]. split; [reflexivity|].
+  assert (CF : conflict_free vcmp_simple vmatch_simple ex_fw ex_cfg default_config ex_flavors ex_vro (lit "libb") no_info ex_D).
+  { split; [vm_compute; reflexivity|]. intros n v p _ Dn F. unfold ex_D in Dn.
+    destruct (str_eqb_spec n (lit "libb")) as [->|N1].
+    - injection Dn as <-. vm_compute in F. injection F as <-.
+      split; [split; [reflexivity|vm_compute; reflexivity]|]. cbn. tauto.
+    - destruct (str_eqb_spec n (lit "base")) as [->|N2]; [|discriminate].
+      injection Dn as <-. vm_compute in F. injection F as <-. cbn. tauto. }
+  split; [exact CF|]. split.
+  - apply (ro_dep ex_fw ex_D (lit "libb") (lit "1.0")
+             {| p_name := lit "libb"; p_version := lit "1.0"; p_dir := lit "/s/libb/1.0";
+                p_actions := [ASetup false (lit "base") false;
+                              APath true (lit "TEXINPUTS") (lit "/s/libb/1.0/tex") c_semi; ANone] |}
+             false (lit "base") false (lit "base")); try reflexivity; [now left| |constructor].
+    apply (su_intro ex_fw ex_D (lit "base") (lit "2.0") (ex_base "2.0")); try reflexivity.
+    intros x j Hin. cbn in Hin. intuition discriminate.
+  - eexists. eexists. eexists. split; vm_compute; reflexivity.
+Qed.
+Print Assumptions closure_exact_inhabited.
+
+(* ---- why the clause is conditional: with a version conflict a REQUIRED product can end up not set up ----
+   cx_fw (Proofs/SetupFullExample.v): t requires c, a, d; a requires b 1.0, whose table requires c; d requires b 2.0.
+   setup t  succeeds; b 1.0 is replaced by b 2.0, the unsetup of b 1.0 unsets its dependency c, and c - a required
+   dependency of t itself - is not set up at the end.  (The real Eups.setup does the same; the world satisfies WF2.) *)
+Example closure_refuted_with_conflict :
+  WF2 (fw_products cx_fw) (dl_of cx_world) (rank_of cx_order) /\
+  exists st' tr,
+    request_full_simple cx_fw ex_cfg default_config ex_flavors 20 ex_st0 (lit "t") None true false = Ok (Some st', tr) /\
+    find_setup_product cx_world (s_env st') (lit "t") = find_pv cx_world (lit "t") (lit "1.0") /\
+    find_setup_product cx_world (s_env st') (lit "b") = find_pv cx_world (lit "b") (lit "2.0") /\
+    find_setup_product cx_world (s_env st') (lit "c") = None.
+Proof.
+  split; [apply wf2_check_sound; vm_compute; reflexivity|].
+  eexists. eexists. split; [vm_compute; reflexivity|]. split; [vm_compute; reflexivity|].
+  split; vm_compute; reflexivity.
+Qed.
+Print Assumptions closure_refuted_with_conflict.
